@@ -17,6 +17,9 @@
               steps, 1 x 70000, 16 x 70000: output arrays >= 2^16 and >= 2^20 elements), two consecutive generations
               of the same model type with generation 1's arrays kept alive while generation 2 runs, then generation 1
               again on a privately allocated array: digests of the bit patterns must agree (kept = original = repeat);
+   long       run-length dependent quantities: long STIFF Storage runs (two of 1100 daily steps in the quick tier, three of 1825 in thorough; every
+              step refined to ~60 s sub-steps) and one 1000-step run of every other stateful model go through the same
+              purity situations and are truncated at / tail-replaced after t = 1, 150, 416, 417, 1000, n-1;
    causality  for EVERY truncation point t = 1..24: the run on the first t steps only gives exactly the first t
               outputs of r1, and the run on inputs[:t] ++ other[t:] (tail replaced by a rotated / reversed copy of
               the series) gives the same first t outputs.
@@ -312,6 +315,88 @@ def main():
                                  difference='digests (outputs, states) %s vs %s' % (a, b)))
                 break
 
+    # ---- phase 5: LONG runs.  Anything derived from the LENGTH of the call (a budget shared between the time steps, a
+    # counter accumulated over the call) breaks causality only for long calls, and for Storage only when the reservoir
+    # is stiff (every daily step refined to ~60 s sub-steps): three long stiff Storage runs and one long run of every
+    # other stateful model through the same purity situations and the truncation / tail-replacement oracle
+    lsteps = 1100 if quick else 1825
+    LN = 1000 if quick else 2000
+    lcases = long_storage_cases(rng, lsteps)
+    if quick:
+        lcases = lcases[:2]           # budget: the seasonal irrigation storage and the spillway reservoir
+    glong = Gen(rng, LN, owrun)
+    for m in STATEFUL:
+        if m != 'Storage':
+            lcases += glong.cases(m, 1 if quick else 2)
+    Gen(rng, N, owrun)            # restore the series lengths patched into the borrowed generators
+    lk = [kline(cs) for cs in lcases]
+    limpl = run_filtered(owrun, lk, 'CRASH', env=GOENV)
+    idx_model = [i for i, cs in enumerate(lcases) if cs['model'] != 'Storage']     # the extracted Storage kernel is too slow here (C13, C06 run it)
+    lmod = dict(zip(idx_model, run_filtered(drv, [lk[i] for i in idx_model], 'MODELCRASH')))
+    long_stats = {}
+    lok, lines5 = [], []
+    for i, (cs, li) in enumerate(zip(lcases, limpl)):
+        m = cs['model']
+        n = len(cs['inputs'][0])
+        st = long_stats.setdefault(m, {'cases': 0, 'steps': n, 'returning': 0, 'purity_comparisons': 0, 'causality_comparisons': 0,
+                                       'truncation_points': [], 'model_runs_compared': 0})
+        st['cases'] += 1
+        ri = parse_kresult(li)
+        if i in lmod:
+            st['model_runs_compared'] += 1
+            rm = parse_kresult(lmod[i])
+            d = agree(cs, ri, rm)
+            if d and rr_conditioned(drv, cs, kline, lambda l: [parse_kresult(l)], [ri], [rm]) is not None:
+                c.corr_broken.append({'model': m, 'diff': 'long run: ' + d, 'line': lk[i][:2000]})
+        if ri[0] != 'OK':
+            continue
+        st['returning'] += 1
+        cs['whole'], cs['kres'] = ri, li.strip()
+        cs['truncs'] = sorted(set(t for t in (1, 150, 416, 417, 1000, n - 1) if 0 < t < n))
+        st['truncation_points'] = cs['truncs']
+        cs['alt'] = alt_inputs(rng, cs['inputs'])
+        pool = [o for o in ok if o['model'] != m]
+        cs['others_cases'] = rng.sample(pool, 3) if len(pool) >= 3 else []
+        cs['others'] = [o['model'] for o in cs['others_cases']]
+        lok.append(cs)
+        lines5.append(purity_line(cs, cs['alt'], cs['truncs'], cs['others_cases']))
+    res5 = run_filtered(owrun, lines5, 'CRASH', env=GOENV)
+    for i, r in enumerate(res5):
+        if r.startswith('CRASH'):            # tail replacement drove Storage into its agreed crash: truncation only
+            cs = lok[i]
+            cs['alt'] = [list(x) for x in cs['inputs']]
+            lines5[i] = purity_line(cs, cs['alt'], cs['truncs'], cs['others_cases'])
+            res5[i] = run_filtered(owrun, [lines5[i]], 'CRASH', env=GOENV)[0]
+            fallback += 1
+    for i, (cs, line, res) in enumerate(zip(lok, lines5, res5)):
+        m = cs['model']
+        st = long_stats[m]
+        nt = nontrivial(cs['whole'])
+        tr = cs['truncs']
+        desc = dict(brief(cs), purity_line=line, truncs=tr, other_models_run_in_between=cs['others'], long=True,
+                    design=cs['meta'].get('design'))
+        name = 'purity_long_%s_%d.json' % (m, i)
+        if not res.startswith('OK '):
+            c.count((m, 'long', cs['params'], 'purity'), nontrivial=False)
+            c.violation(name, dict(desc, kind='run-fails-in-PURITY-but-returned-alone', answer=res[:200]))
+            continue
+        parts = [p.strip() for p in res.split(' | ')]
+        if len(parts) != 6 + 2 * len(tr) + 1 or not parts[-1].startswith('KEPT'):
+            c.violation(name, dict(desc, kind='malformed-answer', answer=res[:200]))
+            continue
+        if parts[0] != cs['kres']:
+            c.violation(name, dict(desc, kind='purity:different-process', difference=first_diff(cs['kres'], parts[0])))
+        bad = judge_parts(parts, tr)
+        for s in SITUATIONS + ['earlier-results-stay-intact']:
+            c.count((m, 'long', cs['params'], cs['states'], cs['inputs'][0][:50], s), nontrivial=nt)
+        st['purity_comparisons'] += len(SITUATIONS)
+        for t in tr:
+            for kind in ('truncated', 'tail-replaced'):
+                c.count((m, 'long', cs['params'], cs['states'], cs['inputs'][0][:50], kind, t), nontrivial=nt)
+                st['causality_comparisons'] += 1
+        if bad:
+            c.violation(name, dict(desc, kind=bad[0][0], difference=bad[0][1], all_failures=[list(b) for b in bad[:20]]))
+
     c.cov['rule'] = ('per catalogue model (all 41): parameter vectors, initial states and 25-step input series from the generators of the '
                      'model\'s own check (C10/C11/C12/C13/C16/C19/C20); each returning case is run six times in one process (same object '
                      'twice, fresh object, same and fresh object after three other randomly chosen catalogue models have run, same object '
@@ -321,11 +406,15 @@ def main():
                      'array of all those runs is kept alive and re-read bit for bit after every later run); plus LARGE cases: models drawn '
                      'from the returning cases, the 25-step series tiled to 40 x 1700, 1 x 70000 and 16 x 70000 (cells x steps; output '
                      'arrays >= 2^16 and >= 2^20 elements), two consecutive generations of the same model type with generation 1 kept '
-                     'alive, compared by digests of the bit patterns; non-trivial = the reference run has at least one non-zero output; '
+                     'alive, compared by digests of the bit patterns; plus LONG runs: stiff Storage reservoirs (quick tier two, thorough three: the long seasonal case '
+                     'of tools/c13.py, a spillway reservoir, a scaled/shifted variant; daily steps, hundreds of accepted sub-steps per step) '
+                     'and one long run of every other stateful model through the same six purity situations and truncated at / '
+                     'tail-replaced after t = 1, 150, 416, 417, 1000 and n-1; non-trivial = the reference run has at least one non-zero output; '
                      'distinct by (model, parameters, states, inputs, situation or (kind, t))')
     c.finish(extra_cov={'per_model': stats, 'models': len(stats), 'series_length': N, 'exhaustive': False,
                         'cases_rerun_without_tail_replacement_after_a_process_crash': fallback,
                         'truncation_points_per_case': len(truncs), 'large_cases': large_stats,
+                        'long_runs': long_stats, 'long_storage_steps': lsteps, 'long_run_steps': LN,
                         'kept_array_rereads': sum(s.get('kept_array_rereads', 0) for s in stats.values()),
                         'oracle': 'identical IEEE-754 bit patterns of all outputs and final states (purity); identical bit patterns of the '
                                   'first t outputs (causality)'},
